@@ -12,6 +12,7 @@ RULE = ("Model-based TestResult histories (0..4 tests, every outcome kind given 
         "names and reasons, tags inside/outside tests, explicit time() values or none, a second startTestRun) are "
         "fed to ExtendedToStreamDecorator whose events go to a recorder and to StreamToExtendedDecorator over an "
         "extended recorder; round-trip oracle on the final result plus well-formedness oracle on the stream. "
+        "Also generated: one details dict object handed to several calls, fractional and non-UTC times, chunks of 70 kB, chunk boundaries inside characters, upper-case / empty / long / RFC-2231-looking parameter values; a traceback file is accepted only for exc_info outcomes and a reason only for skips given one. "
         "Non-trivial: >= 2 details with >= 2 chunks, or a parameterised content type, or >= 3 tests; distinct = "
         "distinct canonical history.")
 ASSUMPTIONS = [
